@@ -53,7 +53,7 @@ def install_rule_counters():
 def make_case(rnd, i):
     naming = ["distinct", "identical", "reuse"][i % 3]
     mf = [0.0, 1.0, 0.5][(i // 3) % 3]
-    g = Gen(rnd, naming=naming, method_form=mf)
+    g = Gen(rnd, naming=naming, method_form=mf, hostile_sel=0.15 if i % 5 == 0 else 0.0)
     q, stages = g.chain(rnd.randint(1, 6), rnd.randint(1, 4))
     return g, q, stages, naming, mf
 
